@@ -485,6 +485,11 @@ func (r *messageSetReader) readHeader() (err error) {
 		if r.debug {
 			r.log("Read v2 header with count=%d offset=%d len=%d magic=%d attributes=%d", r.count, r.header.firstOffset, r.header.length, r.header.magic, r.header.v2.attributes)
 		}
+		if r.count == 0 {
+			// An empty record batch (compaction can leave those behind) has
+			// nothing to deliver: move on to the header of the next batch.
+			return r.readHeader()
+		}
 	default:
 		err = r.header.badMagic()
 		return
